@@ -498,7 +498,7 @@ func (te *TEnv) call(x ECall) TV {
 		if !ok {
 			sfail("typeis wants a type name string")
 		}
-		gt, _ := v.eng.resolveType(te.pkg, name.V)
+		gt := v.eng.goType(te.pkg, name.V)
 		if gt == nil {
 			sfail("typeis: unknown type %s", name.V)
 		}
@@ -510,7 +510,10 @@ func (te *TEnv) call(x ECall) TV {
 		if !ok {
 			sfail("unbox wants a type name string")
 		}
-		gt, _ := v.eng.resolveType(te.pkg, name.V)
+		gt := v.eng.goType(te.pkg, name.V)
+		if gt == nil {
+			sfail("unbox: unknown type %s", name.V)
+		}
 		_, un, _, s, scalar := v.ifaceFns(gt)
 		if !scalar {
 			sfail("unbox of non-scalar type")
